@@ -29,6 +29,11 @@ def derive(filters, features=(), **kw):
     g.update(kw)
     return g
 
+def io(filters, **kw):
+    g = {"crate": "io", "features": [], "filters": filters, "zflags": ["stubbing"], "rustflags": "--cfg minicbor_verif", "kani_args": []}
+    g.update(kw)
+    return g
+
 PROPS = {
     "C01": {
         "title": "value round-trip of the built-in codecs",
@@ -77,6 +82,50 @@ PROPS = {
                    core({"quick": ["c06::c06_a1_n1", "c06::c06_a1_n2", "c06::c06_a1_n3", "c06_gen::q::"], "thorough": ["c06::c06_a1_n", "c06_gen::"]}, features=("half", "alloc"),
                         timeout={"quick": 1500, "thorough": 5400})],
     },
+    "C07": {
+        "title": "CborLen is exact",
+        "bounds": "built-ins: every C01 row, all values; every Token variant (payload <= 4 bytes); derived: the schema family of harness/derive/gen.py (29 rows crossing array/map, "
+                  "gaps, permutation, optionals in every position, tags at every level, transparent, skip, bytes codec, index_only, nesting), all values x presence combinations symbolic",
+        "outside": "structs with >= 24 fields (CBMC runs out of memory on the 25-field schema; the map-header defect there was found by reading and is demonstrated natively), custom has_nil codecs, generics",
+        "assumptions": [],
+        "groups": [core({"quick": ["::q::c07", "c07::c07_tok"], "thorough": ["::c07", "c07::c07_tok"]}), derive({"quick": ["::q::c07"], "thorough": ["::c07"]})],
+    },
+    "C08": {
+        "title": "derived Encode emits the documented wire format",
+        "bounds": "each schema row (see C07) x all values x all presence combinations: bytes == reference encoder R6 generated from the same row per the documentation "
+                  "(minicbor-derive/src/lib.rs 'CBOR encoding'); rename/permutation independence through the PlainR pair of C10",
+        "outside": "schemas outside the family; >= 24 fields; convention chosen where the documentation is silent: an absent tagged optional inside an array is written as tag(null)",
+        "assumptions": [],
+        "groups": [derive({"quick": ["::q::c08"], "thorough": ["::c08"]})],
+    },
+    "C09": {
+        "title": "derived round trip",
+        "bounds": "type-directed inputs: per schema row up to 5 concrete layouts (head-width classes in-head/own-width/wider, presence all/none/random, definite/indefinite/wide container heads) with ALL "
+                  "argument bytes symbolic + a symbolic suffix byte: decoded value == value denoted, position == item end; negative: wrong tag (all other 16-bit tags), missing tag, missing "
+                  "mandatory field, unknown variant => error of the documented class. Round trip through the real encoder follows with C08 (encoder output is one of these layouts)",
+        "outside": "encode->decode in ONE query (symbolic cursor after variable-width heads: > 300 s per schema, abandoned); in-head values other than the sampled constants 0/1/22/23; "
+                  "borrowing fields (&str, Cow); generic parameters",
+        "assumptions": ["Decoder::skip replaced by the R3 model (C06 proves skip == R3); on a lone break byte the model consumes it as the real skip does"],
+        "groups": [derive({"quick": ["::q::c09_"], "thorough": ["::c09_"]})],
+    },
+    "C10": {
+        "title": "derived codecs are forward/backward compatible",
+        "bounds": "19 (writer, reader) pairs over the documented compatible edits (rename/permute, add/drop optional at new and gap index in array and map, variants added to regular and index_only "
+                  "enums in optional fields, unit->struct/tuple variant, tagged optional at a gap, unknown fields/keys ignored, missing mandatory => error), each with up to 5 type-directed layouts, "
+                  "all argument bytes symbolic",
+        "outside": "edit sequences longer than one edit; unknown-field contents beyond the two sampled shapes (nested struct, byte string)",
+        "assumptions": ["Decoder::skip replaced by the R3 model"],
+        "groups": [derive(["gen::c10::p"])],
+    },
+    "C14": {
+        "title": "framed blocking I/O",
+        "bounds": "Reader: one frame (2-byte payload) + start of a second, EVERY split into reads of 1 or up to 4 bytes, <= 2 Interrupted errors at any point, EVERY truncation point 0..=6; "
+                  "two frames then clean end (thorough); undecodable payload then a good frame; max_len 0..=4 vs all 2^32 declared lengths; Writer: all (u8,bool) values, sink accepting 1 byte or all per call, max_len 0..=5",
+        "outside": "streams > 11 bytes / > 2 frames; read sizes other than {1, up to 4}; payloads >= 4 GiB; 'exhaustive for streams <= 20 bytes' of the statement is not reached",
+        "assumptions": ["Vec::resize / Vec::extend_from_slice replaced by fixed-capacity growth models that assert new_len <= capacity (std code, not minicbor's)",
+                        "encode::Error::write stubbed as unreachable for the infallible Vec sink (Kani 0.68 ICE work-around)"],
+        "groups": [io({"quick": ["c14::c14_reader", "c14::c14_undecodable", "c14::c14_writer"], "thorough": ["c14::c14_"]}, timeout={"quick": 1200, "thorough": 3600})],
+    },
     "C11": {
         "title": "token streams are faithful",
         "bounds": "one tokenizer step for each initial byte (quick: the 64 structurally distinct ones, thorough: all 256) with 8 symbolic argument bytes + <= 4 payload bytes: "
@@ -118,6 +167,7 @@ PROPS["S-core"] = {"title": "scratch: core[half]", "groups": [core(["zz_"])]}
 PROPS["S-core-alloc"] = {"title": "scratch: core[half,alloc]", "groups": [core(["zz_"], features=("half", "alloc"))]}
 PROPS["S-core-std"] = {"title": "scratch: core[half,std]", "groups": [core(["zz_"], features=("half", "std"))]}
 PROPS["S-core-none"] = {"title": "scratch: core[]", "groups": [core(["zz_"], features=())]}
+PROPS["S-io"] = {"title": "scratch: io", "groups": [io(["zz_"])]}
 PROPS["S-derive"] = {"title": "scratch: derive", "groups": [derive(["zz_"])]}
 
 _NA = {
